@@ -49,7 +49,7 @@ META = {
             "(transaction-shaped sequences and random ones), target ACK/NAK, read data, literal stretch lengths on chosen "
             "falling edges, literal issue delays after busy falls (0 = immediately), extra strobes while busy",
 }
-TIERS = {"quick": {"runs": 3000, "wall": 70}, "thorough": {"runs": 24000, "wall": 900}}
+TIERS = {"quick": {"runs": 6000, "wall": 70}, "thorough": {"runs": 24000, "wall": 900}}
 
 
 def gen(rng, tier, index):
